@@ -677,6 +677,7 @@ func rulesC02(c *Ctx) {
 	slotAgreement(c, "C02", map[string]bool{"coverage": true, "class": true, "keyword": true, "order": true})
 	operandShapeC02(c)
 	binPrintC03(c, "C02.binprint")
+	silentPathRule(c, "C02.silentpath")
 	formattersC02(c)
 	slotsC08(c)
 	// names and strings are printed through the quoting helpers: they must invert the lexer
